@@ -682,3 +682,64 @@ pub fn log_op(h: &mut Hist, p: &Proxy, sender: &str, op: &Op, r: &Res<Response>)
         h.log.push(s);
     }
 }
+
+// ---------------------------------------------------------------------------------------------
+// independent shadow of the grants (what the admins granted, minus what was spent), kept by the
+// monitors so that authority is not judged against state the contract itself may have corrupted
+
+#[derive(Clone, Debug, Default, PartialEq)]
+pub struct Shadow {
+    pub allow: BTreeMap<String, Allow>,
+}
+
+impl Shadow {
+    /// apply a SUCCESSFUL call. `spend` is the per-denomination total of the caller's bank sends.
+    pub fn apply(&mut self, sender: &str, op: &Op, was_admin: bool, spend: &BTreeMap<String, u128>, height: u64, time_ns: u64) {
+        match op {
+            Op::Inc { spender, coin, exp } if was_admin => {
+                let live = self.allow.get(spender).filter(|a| !a.exp.expired(height, time_ns)).cloned();
+                let mut a = live.unwrap_or(Allow { coins: vec![], exp: Exp::Never });
+                if let Some(e) = exp {
+                    a.exp = *e;
+                }
+                match a.coins.iter_mut().find(|c| c.0 == coin.0) {
+                    Some(c) => c.1 = c.1.saturating_add(coin.1),
+                    None => a.coins.push(coin.clone()),
+                }
+                self.allow.insert(spender.clone(), a);
+            }
+            Op::Dec { spender, coin, exp } if was_admin => {
+                if let Some(a) = self.allow.get_mut(spender) {
+                    if let Some(e) = exp {
+                        a.exp = *e;
+                    }
+                    if let Some(pos) = a.coins.iter().position(|c| c.0 == coin.0) {
+                        if a.coins[pos].1 <= coin.1 {
+                            a.coins.remove(pos);
+                        } else {
+                            a.coins[pos].1 -= coin.1;
+                        }
+                    }
+                    if a.coins.iter().all(|c| c.1 == 0) {
+                        self.allow.remove(spender);
+                    }
+                }
+            }
+            Op::Execute { .. } if !was_admin => {
+                if let Some(a) = self.allow.get_mut(sender) {
+                    for (d, x) in spend {
+                        if let Some(pos) = a.coins.iter().position(|c| c.0 == *d) {
+                            let left = a.coins[pos].1.saturating_sub(*x);
+                            if left == 0 {
+                                a.coins.remove(pos);
+                            } else {
+                                a.coins[pos].1 = left;
+                            }
+                        }
+                    }
+                }
+            }
+            _ => {}
+        }
+    }
+}
